@@ -10,6 +10,8 @@ in `try_update`, is a trace mismatch.
 -/
 import Woodpile.Proofs.AtomicBaseTime
 import Woodpile.Proofs.AbtRA
+import Woodpile.Proofs.NfsVoucher
+import Woodpile.Props.C13R
 
 namespace Woodpile.Props.C18
 open Woodpile.Abt
@@ -259,5 +261,42 @@ example :
       (fun s => decide ((s.thr 1).pc = .sSeq2 ∧ (s.thr 1).sq = 0 ∧ s.start 1 = 0 ∧ s.mem .seq = 1 ∧
         ((SC.step (fun b v => v == b + 100) s (.run 1 0)).map (fun s' => decide ((s'.thr 1).pc = .sV))) = some true))
       = some true := by decide
+
+end Woodpile.Props.C18
+
+namespace Woodpile.Props.C18
+open Woodpile.Abt Woodpile.NfsVoucher
+
+/-! ## `get_base_time_unlocked` (claim-audit gap 10): a statement about the NFS model's function,
+not about an alias -/
+
+/-- `get_base_time_unlocked` inherits the guarantee.  `NfsVoucher.getBaseTimeUnlocked` (the function
+the C19 model and driver run) against `Abt.getBaseTimeUnlockedOp` (the program the H3 trace of the
+real `get_base_time_unlocked` is validated against): from ANY reachable SC state at the crate's
+real voucher check - every other thread frozen wherever it is, a writer holding the lock half
+way through its stores, the mutex poisoned or not - whose most recently published pair is the
+cell of the module state `st`, the caller running alone takes exactly four steps, each an atomic
+load (memory, lock holder, poison flag and history are unchanged: it never acquires or even
+tests the lock and never stores), and returns the very pair `NfsVoucher.getBaseTimeUnlocked st`
+returns, with `st` unchanged.  On the view machine the bounded-own-steps guarantee for the same
+program is `ra_solo_snapshot_terminates_uniform` (`getBaseTimeUnlockedOp = .snapshot`,
+`unlocked_inherits`). -/
+theorem unlocked_is_abt_snapshot {s : SC.State}
+    (h : SC.Reachable chkNat Woodpile.Props.C13R.v0Real s) (tid : Nat) (hterm : (s.thr tid).pc.terminal = true)
+    (st : St) (hcell : SC.cellOf s = some (absCell st)) :
+    getBaseTimeUnlocked st = (st, .pair st.base st.voucher) ∧
+    cellSnapshot st = some (st.base, st.voucher) ∧
+    ∃ s', SC.run chkNat s (.start tid getBaseTimeUnlockedOp :: List.replicate 4 (.run tid 0)) = some s' ∧
+      (s'.thr tid).pc = .retSnap ∧ (s'.thr tid).base = st.base.toNat ∧ (s'.thr tid).bits = st.voucher.toNat ∧
+      s'.mem = s.mem ∧ s'.held = s.held ∧ s'.poisoned = s.poisoned ∧ s'.hist = s.hist :=
+  unlocked_refines Woodpile.Props.C13R.epoch_pair_checks h tid hterm st hcell
+
+/-- Non-vacuity: the hypotheses hold for the initial cell with a writer (thread 1) frozen for
+ever holding the lock after its first slot store (so the state is NOT quiescent). -/
+example :
+    (SC.run chkNat (SC.init Woodpile.Props.C13R.v0Real)
+      [.start 1 (.update 0 Woodpile.Props.C13R.v0Real), .run 1 0, .run 1 0, .run 1 0, .run 1 0, .run 1 0]).map
+      (fun s => decide ((s.thr 1).pc = .aStV ∧ s.held = some 1 ∧ (s.thr 0).pc.terminal = true ∧
+        s.hist.length = 1)) = some true := by decide +kernel
 
 end Woodpile.Props.C18
